@@ -1,0 +1,172 @@
+//! This module makes the binders of a top-level function distinct before the translation.
+//!
+//! The translation to Core places continuations, which may mention variables of enclosing scopes,
+//! beneath the binders of subterms (`let`, clauses of pattern and copattern matches, `label`). A
+//! binder that shadows another one could hence capture a variable of such a continuation. We avoid
+//! this by renaming every binder whose name has already been bound in the same top-level function.
+
+use fun::syntax::{
+    declarations::Def,
+    names::{Var, fresh_name},
+    terms::{Clause, Term},
+};
+use fun::traits::used_binders::UsedBinders;
+
+use std::collections::HashSet;
+use std::rc::Rc;
+
+struct Renaming {
+    /// All names occurring in the function, used to pick fresh names.
+    all_names: HashSet<Var>,
+    /// The names that have been bound already.
+    bound: HashSet<Var>,
+    /// The renamings currently in scope, innermost last.
+    scope: Vec<(Var, Var)>,
+}
+
+impl Renaming {
+    fn bind(&mut self, name: &Var) -> Var {
+        let new_name = if self.bound.contains(name) {
+            fresh_name(&mut self.all_names, name)
+        } else {
+            name.clone()
+        };
+        self.bound.insert(new_name.clone());
+        self.scope.push((name.clone(), new_name.clone()));
+        new_name
+    }
+
+    fn lookup(&self, name: &Var) -> Var {
+        self.scope
+            .iter()
+            .rev()
+            .find(|(old, _)| old == name)
+            .map_or_else(|| name.clone(), |(_, new)| new.clone())
+    }
+
+    fn rename_rc(&mut self, term: Rc<Term>) -> Rc<Term> {
+        Rc::new(self.rename(Rc::unwrap_or_clone(term)))
+    }
+
+    fn rename_args(&mut self, args: &mut fun::syntax::arguments::Arguments) {
+        args.entries = std::mem::take(&mut args.entries)
+            .into_iter()
+            .map(|arg| self.rename(arg))
+            .collect();
+    }
+
+    fn rename_clauses(&mut self, clauses: Vec<Clause>) -> Vec<Clause> {
+        clauses
+            .into_iter()
+            .map(|mut clause| {
+                let scope_size = self.scope.len();
+                for (name, binding) in clause
+                    .context_names
+                    .bindings
+                    .iter_mut()
+                    .zip(clause.context.bindings.iter_mut())
+                {
+                    let new_name = self.bind(name);
+                    name.clone_from(&new_name);
+                    binding.var = new_name;
+                }
+                clause.body = self.rename(clause.body);
+                self.scope.truncate(scope_size);
+                clause
+            })
+            .collect()
+    }
+
+    fn rename(&mut self, term: Term) -> Term {
+        match term {
+            Term::XVar(mut var) => {
+                var.var = self.lookup(&var.var);
+                var.into()
+            }
+            Term::Lit(_) => term,
+            Term::Op(mut op) => {
+                op.fst = self.rename_rc(op.fst);
+                op.snd = self.rename_rc(op.snd);
+                op.into()
+            }
+            Term::IfC(mut ifc) => {
+                ifc.fst = self.rename_rc(ifc.fst);
+                ifc.snd = ifc.snd.map(|snd| self.rename_rc(snd));
+                ifc.thenc = self.rename_rc(ifc.thenc);
+                ifc.elsec = self.rename_rc(ifc.elsec);
+                ifc.into()
+            }
+            Term::PrintI64(mut print) => {
+                print.arg = self.rename_rc(print.arg);
+                print.next = self.rename_rc(print.next);
+                print.into()
+            }
+            Term::Let(mut r#let) => {
+                r#let.bound_term = self.rename_rc(r#let.bound_term);
+                let scope_size = self.scope.len();
+                r#let.variable = self.bind(&r#let.variable);
+                r#let.in_term = self.rename_rc(r#let.in_term);
+                self.scope.truncate(scope_size);
+                r#let.into()
+            }
+            Term::Call(mut call) => {
+                self.rename_args(&mut call.args);
+                call.into()
+            }
+            Term::Constructor(mut constructor) => {
+                self.rename_args(&mut constructor.args);
+                constructor.into()
+            }
+            Term::Destructor(mut destructor) => {
+                destructor.scrutinee = self.rename_rc(destructor.scrutinee);
+                self.rename_args(&mut destructor.args);
+                destructor.into()
+            }
+            Term::Case(mut case) => {
+                case.scrutinee = self.rename_rc(case.scrutinee);
+                case.clauses = self.rename_clauses(case.clauses);
+                case.into()
+            }
+            Term::New(mut new) => {
+                new.clauses = self.rename_clauses(new.clauses);
+                new.into()
+            }
+            Term::Label(mut label) => {
+                let scope_size = self.scope.len();
+                label.label = self.bind(&label.label);
+                label.term = self.rename_rc(label.term);
+                self.scope.truncate(scope_size);
+                label.into()
+            }
+            Term::Goto(mut goto) => {
+                goto.target = self.lookup(&goto.target);
+                goto.term = self.rename_rc(goto.term);
+                goto.into()
+            }
+            Term::Exit(mut exit) => {
+                exit.arg = self.rename_rc(exit.arg);
+                exit.into()
+            }
+            Term::Paren(mut paren) => {
+                paren.inner = self.rename_rc(paren.inner);
+                paren.into()
+            }
+        }
+    }
+}
+
+/// This function renames the binders in the body of a top-level function such that no name is
+/// bound more than once in the function (including its parameters).
+pub fn make_binders_distinct(mut def: Def) -> Def {
+    let bound = def.context.vars();
+    let mut all_names = bound.clone();
+    def.body.used_binders(&mut all_names);
+
+    let mut renaming = Renaming {
+        all_names,
+        bound,
+        scope: Vec::new(),
+    };
+    def.body = renaming.rename(def.body);
+    def
+}
